@@ -1,19 +1,20 @@
 # plan and claim for C15 (X.509 create / parse / verify); J and both are injected by driver/plan.py
 PLAN = dict(
     level="exploration",
-    rule="c15.objects: one case = one object (certificate under a CA, self-signed certificate, PKCS#10 request, CFCA request, "
+    rule="c15.objects: one object (handled in 4 cases = parts, each re-creating it from the same template and keys; laws, truncations and "
+         "trailing data in part 0, part p sweeps the DER offsets = p mod 4) = (certificate under a CA, self-signed certificate, PKCS#10 request, CFCA request, "
          "revocation list; kinds and signer key types SM2/P-256/P-384/Ed25519/RSA cycle with the case number, template, subject key "
-         "and signature algorithm come from the case PRNG) with the field-equality and signature laws, an independent SM2-SM3 "
+         "and signature algorithm come from a PRNG of (seed, workload, object number)) with the field-equality and signature laws, an independent SM2-SM3 "
          "verification, issuer-key substitution, issuer gating and the complete sweep: 4 substitutions (^0x01, ^0x80, 0x00, 0xFF; "
-         "identity mutants excluded) at every DER offset (every 4th offset, phase = object number mod 4, when the issuer key is P-384), every truncation and 2 trailing-data extensions. c15.chains: one case = one "
+         "identity mutants excluded) at every DER offset (a quarter of the offsets, selected by the object number, when the issuer key is P-384), every truncation and 2 trailing-data extensions. c15.chains: one case = one "
          "generated PKI (a base chain of depth 0..3 changed by one of 21 recipes (cycle of 29: 8 slots mix 2-3 recipes), plus noise) built three times (SM2 keys, "
          "mixed key types, ECDSA twin through crypto/x509) and queried at 4+ explicit verification times x key-usage sets per target. "
          "c15.sha1: the object workload restricted to SHA-1 signature algorithms, run with GODEBUG=x509sha1=1 only. "
          "distinct = class keys (configuration | object kind / signer / algorithm / subject key / CA / constraints, or recipe / depth / "
          "number of certificates / outcome pattern); no case is marked trivial",
-    jobs=both("c15.objects", ["avx2", "purego"], shards=(6, 14), floor=250)
+    jobs=both("c15.objects", ["avx2", "purego"], shards=(6, 14), floor=1000)
          + both("c15.chains", ["avx2", "purego"], shards=(6, 14), floor=3500)
-         + [J("c15.sha1", configs=["sha1ok"], variant="asm", shards=(1, 2), floor=30)],
+         + [J("c15.sha1", configs=["sha1ok"], variant="asm", shards=(1, 2), floor=120)],
     assumptions=["crypto/x509, encoding/asn1, math/big of the toolchain are trusted (twin instance, independent parse of non-SM2 objects)",
                  "harness/ref/ec + harness/ref/sm3 (self-tested against GB/T 32918.5 / GB/T 32905 examples) are the independent SM2-SM3 verifier",
                  "the ground-truth model is RFC 5280 path validation restricted to the generated features; where Verify is documented to be "
